@@ -127,6 +127,10 @@ class ContractMonitor:
         ctx.violation(what, f'{op}{args}: {detail}', path=list(ctx.path),
                       sig=(self.prop, what, op, shape), extra={'candidate': [op, list(args)]})
 
+    def on_menu_error(self, st, ms, exc, ctx):
+        from ..explore import query_raised
+        query_raised(self.prop, st, exc, ctx)
+
     def on_state(self, st, ms, menu, ctx):
         snap0 = canon.snapshot(st)
         for op, args, must_refuse in candidates(st):
